@@ -25,7 +25,7 @@ ChaInner(s) ==
 ChaConst == << <<24944, 30821>>, <<13088, 25710>>, <<31074, 11570>>, <<27424, 25972>> >>
 \* 2.3 state: constants | key (8 words LE) | block counter | nonce (3 words LE)
 ChaInit(key, counter, nonce) ==
-  ChaConst \o [k \in 1..8 |-> WordLE(key, 4 * (k - 1))] \o <<counter>> \o [k \in 1..3 |-> WordLE(nonce, 4 * (k - 1))]
+  ChaConst \o Strict([k \in 1..8 |-> WordLE(key, 4 * (k - 1))]) \o <<counter>> \o Strict([k \in 1..3 |-> WordLE(nonce, 4 * (k - 1))])
 \* chacha20_block: 10 double rounds, add the input state, serialise little-endian
 ChaBlock(key, counter, nonce) ==
   LET s0 == ChaInit(key, counter, nonce)
